@@ -117,6 +117,7 @@ def _verify_case(repo, reg, c, ci, case, canary):
         raise Unsupported("loop write-set did not stabilise in %s" % c.qual)
     res.gen_s = time.time() - t0
     res.stats = dict(E.stats)
+    res.called = set(E.called)
     reg.active = None
     # de-duplicate identical obligations generated on several paths (same name+pc+goal)
     return res
